@@ -572,6 +572,21 @@ func init() {
 		fr.i.allocTrack = true
 		return int64(fr.i.allocEvents)
 	}
+	ext[symPkg+"WouldBlock"] = func(fr *frame, a []value) (res value) {
+		i := fr.i
+		res = false
+		defer func() {
+			if r := recover(); r != nil {
+				if pe, ok := r.(pathEnd); ok && pe.kind == "deadlock" {
+					res = true
+					return
+				}
+				panic(r)
+			}
+		}()
+		i.call(fr, token.NoPos, a[0], nil)
+		return false
+	}
 	ext[symPkg+"PoolAllChoices"] = func(fr *frame, a []value) value {
 		fr.i.poolChoice = a[0].(bool)
 		return nil
@@ -899,7 +914,28 @@ func init() {
 		i := fr.i
 		v, ok := a[1].(int64)
 		if !ok {
-			i.unsupported("strconv.AppendInt symbolic")
+			// symbolic value: hexadecimal of a value below 256 (hexEscapeNonASCII)
+			t := a[1].(*Term)
+			if i.cint(a[2], "base") != 16 {
+				i.unsupported("strconv.AppendInt of a symbolic value in base != 16")
+			}
+			if i.decide(i.ts.Cmp(OpBVUle, i.ts.Const(256, 64), t)) {
+				i.unsupported("strconv.AppendInt of a symbolic value >= 256")
+			}
+			hex := func(n *Term) value { // n: 8-bit nibble value
+				lt10 := i.ts.Cmp(OpBVUlt, n, i.ts.Const(10, 8))
+				return fromTerm(i.ts.Ite(lt10, i.ts.BV(OpBVAdd, n, i.ts.Const('0', 8)), i.ts.BV(OpBVAdd, n, i.ts.Const('a'-10, 8))), false)
+			}
+			b8 := i.ts.Extract(t, 7, 0)
+			hi := i.ts.BV(OpBVLshr, b8, i.ts.Const(4, 8))
+			lo := i.ts.BV(OpBVAnd, b8, i.ts.Const(15, 8))
+			var digits []value
+			if i.decide(i.ts.Cmp(OpBVUle, i.ts.Const(16, 64), t)) {
+				digits = []value{hex(hi), hex(lo)}
+			} else {
+				digits = []value{hex(lo)}
+			}
+			return i.appendSlice(a[0].([]value), digits, types.NewSlice(types.Typ[types.Byte]))
 		}
 		s := strconv.FormatInt(v, i.cint(a[2], "base"))
 		return i.appendSlice(a[0].([]value), strBytes(s), types.NewSlice(types.Typ[types.Byte]))
